@@ -3532,9 +3532,14 @@ async def _helper_rename_folder(mbox: Mailbox, new_name: str) -> None:
     # Get all the mailboxes we have to rename (this mbox may have children)
     #
     to_change = {}
+    # NOTE: The inferiors are the names that begin with `old_name/`, exactly:
+    #       `LIKE` treats the `_` and `%` of a name as wild cards and ignores
+    #       the case of letters, which pulled unrelated mailboxes
+    #       (`axb/kid` for `a_b`, `foo/kid` for `Foo`) in to the rename.
+    #
     async for mbox_old_name, mbox_id in srvr.db.query(
-        "SELECT name,id FROM mailboxes WHERE name=? OR name LIKE ?",
-        (old_name, f"{old_name}/%"),
+        "SELECT name,id FROM mailboxes WHERE name=? OR substr(name,1,?)=?",
+        (old_name, len(old_name) + 1, f"{old_name}/"),
     ):
         mbox_new_name = new_name + mbox_old_name[len(old_name) :]
         to_change[mbox_old_name] = (mbox_new_name, mbox_id)
